@@ -7,6 +7,7 @@ import XotModel.Driver.Entity
 import XotModel.Driver.Tree
 import XotModel.Driver.Compare
 import XotModel.Driver.Forest
+import XotModel.Driver.Fspec
 import XotModel.Driver.IdMap
 import XotModel.Driver.Axes
 import XotModel.Driver.Output
@@ -39,6 +40,8 @@ structure MState where
 
 def dispatchAll (st : MState) (line : String) : MState × String :=
   match words line with
+  | "forest" :: "spec" :: rest => (st, (handleFspec st.forest ("spec" :: rest)).getD "bad-request")
+  | "forest" :: "specx" :: rest => (st, (handleFspec st.forest ("specx" :: rest)).getD "bad-request")
   | "forest" :: "fixed" :: rest => (match handleFfixed st.forest rest with | some (fs, resp) => ({ st with forest := fs }, resp) | none => (st, "bad-request"))
   | "forest" :: rest =>
     (match (handleFclone st.d.env st.forest rest).orElse (fun _ => handleForest st.forest rest) with
